@@ -8,3 +8,48 @@ impl<T> SmallVec<T> {
     { self.v.append(&mut other.v); }
 }
 pub fn vsmallvec1<T>(x: T) -> (r: SmallVec<T>) ensures r.v@ == seq![x], { let mut v = Vec::new(); v.push(x); SmallVec { v } }
+
+// ---- decide_packs: neighbours of the per-pack decision ----
+#[derive(Clone, Copy, PartialEq, Eq, Structural)]
+pub enum BlobType { Tree, Data }
+#[derive(Clone, Copy)]
+pub struct PackId { pub _opaque: u64 }
+#[derive(Clone, Copy)]
+pub struct Timestamp { pub t: i64 }
+pub struct IndexBlob { pub _opaque: u64 }
+// EnumSet<PackStatus>: informational flags only (debug statistics); opaque
+#[derive(Clone, Copy)]
+pub struct StatusSet { pub _opaque: u64 }
+
+pub struct PruneStats { pub _opaque: u64 }
+// "mark time + keep_delete <= now": `self.time.saturating_sub(keep_delete).timestamp() >= t` (jiff arithmetic, uninterpreted)
+pub uninterp spec fn delete_due(limit: Timestamp, t: Timestamp) -> bool;
+#[verifier::external_body]
+pub fn vdelete_due(limit: &Timestamp, t: &Timestamp) -> (r: bool) ensures r == delete_due(*limit, *t), { unimplemented!() }
+
+pub struct VPlan {
+    pub repack_candidates: Vec<(PackInfo, StatusSet, RepackReason, usize, usize)>,
+    pub stats: PruneStats,
+    pub delete_limit: Timestamp,
+}
+
+// ---- check_existing_packs: which packs may "settle" a used blob ----
+// `used_ids` after decide_packs = blobs that still have to be carried over by repacking.  Removing an id from it
+// declares "this blob is safely held by a pack that stays" -- allowed ONLY for packs that remain as live
+// (unmarked or recovered) packs; a pack that is merely kept until its keep-delete time runs out is no safe holder.
+pub struct BlobId { pub _opaque: u64 }
+pub struct UsedIds { pub _opaque: u64 }
+pub open spec fn safe_holder(t: PackToDo) -> bool { t == PackToDo::Keep || t == PackToDo::Recover }
+#[verifier::external_body]
+pub fn vused_ids_remove(u: &mut UsedIds, id: &BlobId, Ghost(holder): Ghost<PackToDo>) -> (r: Option<u8>)
+    requires safe_holder(holder),
+{ unimplemented!() }
+#[verifier::external_body]
+pub fn vcheck_size(existing_size: Option<u32>, pack_size: u32) -> (r: RusticResult<()>)
+    ensures r is Ok ==> existing_size == Some(pack_size),
+{ unimplemented!() }
+pub struct VBlobRef { pub id: BlobId }
+pub struct VPackRef { pub to_do: PackToDo, pub size: u32, pub blobs: Vec<VBlobRef> }
+pub struct VPlan2 { pub used_ids: UsedIds }
+
+pub fn vunreachable() requires false, {}
